@@ -57,3 +57,57 @@ uint8_t vw_split16GetLen(const uint8_t *p) {
 uint8_t vw_split16GetLenQuick(const uint8_t *p) {
     return (uint8_t)varintSplitFull16GetLenQuick_(p);
 }
+
+/* varintSplitFull.h */
+uint8_t vw_splitFullPut(uint8_t *dst, uint64_t val) {
+    uint8_t len = 0;
+    varintSplitFullPut_(dst, len, val);
+    return len;
+}
+uint8_t vw_splitFullLength(uint64_t val) {
+    uint8_t len = 0;
+    varintSplitFullLength_(len, val);
+    return len;
+}
+uint8_t vw_splitFullGet(const uint8_t *p, uint64_t *out) {
+    uint8_t n = 0;
+    uint64_t v = 0;
+    varintSplitFullGet_(p, n, v);
+    *out = v;
+    return n;
+}
+uint8_t vw_splitFullGetLen(const uint8_t *p) {
+    uint8_t n = 0;
+    varintSplitFullGetLen_(p, n);
+    return n;
+}
+uint8_t vw_splitFullGetLenQuick(const uint8_t *p) {
+    return (uint8_t)varintSplitFullGetLenQuick_(p);
+}
+
+/* varintSplitFullNoZero.h */
+uint8_t vw_splitNZPut(uint8_t *dst, uint64_t val) {
+    uint8_t len = 0;
+    varintSplitFullNoZeroPut_(dst, len, val);
+    return len;
+}
+uint8_t vw_splitNZLength(uint64_t val) {
+    uint8_t len = 0;
+    varintSplitFullNoZeroLength_(len, val);
+    return len;
+}
+uint8_t vw_splitNZGet(const uint8_t *p, uint64_t *out) {
+    uint8_t n = 0;
+    uint64_t v = 0;
+    varintSplitFullNoZeroGet_(p, n, v);
+    *out = v;
+    return n;
+}
+uint8_t vw_splitNZGetLen(const uint8_t *p) {
+    uint8_t n = 0;
+    varintSplitFullNoZeroGetLen_(p, n);
+    return n;
+}
+uint8_t vw_splitNZGetLenQuick(const uint8_t *p) {
+    return (uint8_t)varintSplitFullNoZeroGetLenQuick_(p);
+}
